@@ -125,4 +125,43 @@ _c("parse_midi_event",
                          "result[0]['param2'] == fp.data[old_pos + 2]" % (_E, _E)),
                         ("reports-exactly-the-bytes-consumed", "result[1] == 3 and fp.pos == old_pos + 3")])],
    raises={"FormatError": "fp.data[fp.pos] < 128"},
-   modifies=["param:fp", "param:self"], battery="event_files")
+   modifies=["param:fp", "param:self"], havoc={"fp.pos": "int", "self.bytes_read": "int"}, battery="event_files")
+
+# a whole track chunk: header, then delta-time / event pairs until the chunk's byte count is used up.  Proved for chunks
+# of 0, 1 and 2 two-parameter channel events with one-byte delta times (4 bytes each), any field values; the general
+# stream (meta events, longer deltas, running lengths) is the round-trip driver's.
+_P = "fp.pos"
+
+
+def _track_req(k):
+    c = ["%s + %d <= len(fp.data)" % (_P, 8 + 4 * k + 6),
+         "all([0 <= fp.data[%s + i] and fp.data[%s + i] < 256 for i in range(%d)])" % (_P, _P, 8 + 4 * k + 6),
+         "fp.data[%s:%s + 4] == b'MTrk'" % (_P, _P),
+         "fp.data[%s + 4] == 0 and fp.data[%s + 5] == 0 and fp.data[%s + 6] == 0 and fp.data[%s + 7] == %d" % (_P, _P, _P, _P, 4 * k)]
+    for i in range(k):
+        b = 8 + 4 * i
+        c.append("fp.data[%s + %d] < 128" % (_P, b))
+        c.append("128 <= fp.data[%s + %d] and fp.data[%s + %d] < 240 and not (192 <= fp.data[%s + %d] and fp.data[%s + %d] < 224)"
+                 % (_P, b + 1, _P, b + 1, _P, b + 1, _P, b + 1))
+    return " and ".join(c)
+
+
+def _track_ens(k):
+    e = [("one-pair-per-event", "len(result) == %d" % k), ("whole-chunk-consumed", "fp.pos == old_pos + %d" % (8 + 4 * k))]
+    for i in range(k):
+        b = 8 + 4 * i
+        e.append(("event-%d-delta-and-fields" % i,
+                  "result[%d][0] == fp.data[old_pos + %d] and result[%d][1]['channel'] == fp.data[old_pos + %d] %% 16 and "
+                  "result[%d][1]['param1'] == fp.data[old_pos + %d] and result[%d][1]['param2'] == fp.data[old_pos + %d] and "
+                  "result[%d][1]['event'] == (8 if fp.data[old_pos + %d] == 0 else fp.data[old_pos + %d] // 16)"
+                  % (i, b, i, b + 1, i, b + 2, i, b + 3, i, b + 3, b + 1)))
+    return e
+
+
+_c("parse_track",
+   params={"self": "MidiFileIn", "fp": "file"},
+   requires="(%s)" % ") or (".join(_track_req(k) for k in (0, 1, 2)),
+   old={"old_pos": "fp.pos"}, returns="list[any]",
+   cases=[dict(when="fp.data[fp.pos + 7] == %d" % (4 * k), returns="list[any]", ensures=_track_ens(k)) for k in (0, 1, 2)],
+   split=[{"assume": _track_req(k)} for k in (0, 1, 2)], split_is_domain=True,
+   modifies=["param:fp", "param:self"], battery="track_files")
